@@ -461,6 +461,11 @@ class Enumerator:
         if k == "index":
             return ("index", v, self.read_local(st, pe["l"]))
         if k == "cidx":
+            if v[0] == "agg" and v[1] == "array":
+                n = len(v) - 2
+                i = pe["offset"] if not pe["from_end"] else n - pe["offset"]
+                if 0 <= i < n:
+                    return v[2 + i]
             return ("cidx", v, pe["offset"], pe["from_end"])
         if k == "subslice":
             return ("subslice", v, pe["from"], pe["to"], pe["from_end"])
@@ -599,7 +604,11 @@ class Enumerator:
             ops = tuple(self.operand(st, o) for o in r["ops"])
             agg = r["agg"]
             if agg == "adt":
-                name = "adt:%s::%s#%d" % (strip_generics(r["adt"]), r["variant_name"], r["variant"])
+                apath = strip_generics(r["adt"])
+                if apath.startswith("std::"):
+                    # witness crates name core items through std; keep one spelling
+                    apath = "core::" + apath[5:]
+                name = "adt:%s::%s#%d" % (apath, r["variant_name"], r["variant"])
                 if "discr_bits" in r:
                     dv = int(r["discr_bits"])
                     dt = r.get("discr_ty", "isize")
@@ -831,9 +840,12 @@ class Enumerator:
         if prog is not None and path not in self.opts.opaque and self.depth < self.opts.max_depth:
             cb = None
             if path in self.opts.inline or self.opts.inline_all_loopfree:
-                c = prog.by_key.get(path, [])
-                if len(c) == 1:
-                    cb = c[0]
+                # the raw def path is the cross-crate join key; the pretty path is the fall-back
+                cb = prog.by_raw(callee.get("raw", ""))
+                if cb is None:
+                    c = prog.by_key.get(path, [])
+                    if len(c) == 1:
+                        cb = c[0]
             if cb is not None and not cb.loops() and len(cb.blocks) <= 80:
                 sub = Enumerator(cb, self.opts, self.depth + 1)
                 argmap = {i + 1: rargs[i] for i in range(len(rargs))}
